@@ -3,6 +3,8 @@
 package rdb
 
 import (
+	"bufio"
+	"io"
 	"bytes"
 	"encoding/binary"
 	"fmt"
@@ -29,13 +31,43 @@ type c11Case struct {
 }
 
 // c11Parse runs the whole file through the loader; returns "" when no step reports an error.
-func c11Parse(file []byte) (errText string) {
+func c11Parse(file []byte) (errText string) { return c11ParseFrom(bytes.NewReader(file)) }
+
+// c11Split delivers data with a short read at every position in cuts (ascending); step > 0
+// additionally limits every read to step bytes.
+type c11Split struct {
+	data []byte
+	pos  int
+	cuts []int
+	step int
+}
+
+func (r *c11Split) Read(p []byte) (int, error) {
+	if r.pos >= len(r.data) {
+		return 0, io.EOF
+	}
+	end := len(r.data)
+	for _, c := range r.cuts {
+		if c > r.pos && c < end {
+			end = c
+			break
+		}
+	}
+	if r.step > 0 && r.pos+r.step < end {
+		end = r.pos + r.step
+	}
+	n := copy(p, r.data[r.pos:end])
+	r.pos += n
+	return n, nil
+}
+
+func c11ParseFrom(src io.Reader) (errText string) {
 	defer func() {
 		if x := recover(); x != nil {
 			errText = fmt.Sprintf("go panic: %v", x)
 		}
 	}()
-	l := NewLoader(bytes.NewReader(file))
+	l := NewLoader(src)
 	if err := l.Header(); err != nil {
 		return "header: " + err.Error()
 	}
@@ -95,7 +127,37 @@ func c11File(c c11Case, items []rdbgen.Item) {
 	if c.Val < 0 {
 		if e := c11Parse(file); e != "" {
 			ev.Violate("C11|intact-rdb-rejected", fmt.Sprintf("intact RDB with one %s record is rejected: %s", c.Name, e), c)
+			return
 		}
+		// independent of how the bytes are split: a short read at every position (directly and
+		// below a 16-byte bufio.Reader, the production composition), and byte-by-byte delivery
+		var splits int64
+		for _, p := range c11Positions(len(file)) {
+			if p == 0 {
+				continue
+			}
+			for _, buffered := range []bool{false, true} {
+				var src io.Reader = &c11Split{data: file, cuts: []int{p}}
+				if buffered {
+					src = bufio.NewReaderSize(src, 16)
+				}
+				splits++
+				if e := c11ParseFrom(src); e != "" {
+					ev.Violate("C11|intact-rdb-rejected|split", fmt.Sprintf("intact RDB with one %s record (%d bytes) is rejected when the source delivers it with a short read at byte %d (bufio=%v): %s", c.Name, len(file), p, buffered, e), c)
+					return
+				}
+			}
+		}
+		if len(file) <= 2100 {
+			for _, step := range []int{1, 3, 7} {
+				splits++
+				if e := c11ParseFrom(&c11Split{data: file, step: step}); e != "" {
+					ev.Violate("C11|intact-rdb-rejected|split", fmt.Sprintf("intact RDB with one %s record is rejected when delivered %d byte(s) at a time: %s", c.Name, step, e), c)
+					return
+				}
+			}
+		}
+		ev.Count("intact_rdb_split_deliveries", splits)
 		return
 	}
 	orig := file[c.Pos]
